@@ -322,7 +322,7 @@ func (s *IndexedState) add(ctx *Context, id string, x Map) (string, map[string]i
 			if err = s.unindexRule(ctx, id, previousRule); err != nil {
 				return "", nil, err
 			}
-			if _, scheduled := previousRule["schedule"]; !scheduled {
+			if !scheduledRule(previousRule) {
 				unindexed = previousRule
 			}
 		}
@@ -332,7 +332,7 @@ func (s *IndexedState) add(ctx *Context, id string, x Map) (string, map[string]i
 	if rule != nil {
 		// ToDo: Metric(ctx, "RuleUpdated", "location", s.Name, "ruleId", id)
 		Log(DEBUG, ctx, "IndexedState.add", "state", s.Name, "rule", rule, "ruleId", id)
-		if _, scheduled := rule["schedule"]; !scheduled {
+		if !scheduledRule(rule) {
 			if err = s.indexRule(ctx, id, rule); err != nil {
 				s.unindexRule(ctx, id, rule)
 				if unindexed != nil {
@@ -373,6 +373,20 @@ func (s *IndexedState) add(ctx *Context, id string, x Map) (string, map[string]i
 	elapsed := time.Now().Sub(then).Nanoseconds()
 	Log(DEBUG, ctx, "IndexedState.add", "state", s.Name, "id", id, "elapsed", elapsed)
 	return id, fact, nil
+}
+
+// scheduledRule reports whether the rule (in its map representation)
+// has a schedule.  As for 'RuleFromJSON' (and the cron hooks), an
+// empty schedule is no schedule.
+func scheduledRule(rule map[string]interface{}) bool {
+	schedule, have := rule["schedule"]
+	if !have {
+		return false
+	}
+	if s, isString := schedule.(string); isString && s == "" {
+		return false
+	}
+	return true
 }
 
 // GetRulesPatterns extracts the rule's 'when' pattern.
